@@ -10,7 +10,7 @@ from vf.spec import ALIASERS, AnyT, Coll, ObjectT, Program, Unspecified, canon
 PROP = "C05"
 SHARDS = {"quick": 8, "thorough": 16}
 TIME_CAP = {"quick": 70, "thorough": 900}
-REQUIRED = ["value_round_trips_default_no_copy", "value_round_trips", "json_round_trips", "dual_round_trips", "fixpoint_checks", "completion_checks", "programs", "std_programs", "aliaser_programs",
+REQUIRED = ["std_constructed_round_trips", "value_round_trips_default_no_copy", "value_round_trips", "json_round_trips", "dual_round_trips", "fixpoint_checks", "completion_checks", "programs", "std_programs", "aliaser_programs",
             "fields_set_programs", "discriminated_round_trips", "discriminated_families", "discriminated_roundtrips", "discriminated_class_checks"]
 RULE = ("bijective fragment of the C01 program space (no one-way conversion, serialized method, asymmetric skip, init=False / InitVar field, class-ambiguous union; exclude_* off) "
         "+ standard-library converted types (UUID, date/datetime/time, Decimal, bytes, Path, ip addresses, Pattern) + discriminated unions; values = images of model-valid data; "
@@ -271,8 +271,56 @@ def json_ambiguous(t):
     return False
 
 
+def check_std_constructed(env):
+    """values of the standard-library types built directly (not through deserialize): deserialize(serialize(v)) == v"""
+    import datetime as dt
+    import decimal
+    import ipaddress
+    import pathlib
+    import uuid
+    from collections import deque
+    from typing import Deque, Dict, List, Optional
+    from apischema import deserialize, serialize
+
+    D = decimal.Decimal
+    values = {
+        decimal.Decimal: [D(0.1), D(2 ** 63), D(2 ** 70), D(-(2 ** 64)), D(1) / D(2 ** 30), D(1.5), D(0), D(-0.25), D(1e-07), D(123456789.125)],
+        uuid.UUID: [uuid.UUID(int=0), uuid.UUID("12345678-1234-5678-1234-567812345678")],
+        dt.date: [dt.date(2020, 1, 31), dt.date(1, 1, 1), dt.date(9999, 12, 31)],
+        dt.datetime: [dt.datetime(2020, 1, 31, 12, 30), dt.datetime(2020, 1, 31, 12, 30, 0, 123), dt.datetime(2021, 6, 30, 23, 59, 59, tzinfo=dt.timezone(dt.timedelta(hours=5, minutes=30))),
+                      dt.datetime(1999, 12, 1, tzinfo=dt.timezone.utc)],
+        dt.time: [dt.time(12, 30), dt.time(0, 0, 1), dt.time(23, 59, 59, 500)],
+        bytes: [b"", b"abc", b"\xfb\xff", b"\x00" * 5, bytes(range(256))],
+        pathlib.Path: [pathlib.Path("/tmp/x"), pathlib.Path("a/b"), pathlib.Path(".")],
+        ipaddress.IPv4Address: [ipaddress.IPv4Address("127.0.0.1"), ipaddress.IPv4Address("255.255.255.255")],
+        ipaddress.IPv6Address: [ipaddress.IPv6Address("::1"), ipaddress.IPv6Address("fe80::1")],
+    }
+    harness.reset_all()
+    for cls, vs in values.items():
+        for wrap_name, T, mk, un in (("bare", cls, lambda v: v, lambda r: r), ("list", List[cls], lambda v: [v, v], lambda r: r[0]), ("optional", Optional[cls], lambda v: v, lambda r: r),
+                                     ("dict", Dict[str, cls], lambda v: {"k": v}, lambda r: r["k"]), ("deque", Deque[cls], lambda v: deque([v]), lambda r: r[0])):
+            for v in vs:
+                s = harness.call(serialize, T, mk(v))
+                env.count("std_constructed_round_trips")
+                env.case("std-constructed", cls.__name__, wrap_name, repr(v))
+                wit = {"type": f"{wrap_name}[{cls.__name__}]", "value": repr(v), "serialized": s.brief()}
+                if s.kind != "ok":
+                    env.violation({"kind": "serialize-exception", "family": "std-constructed", "exc": s.exc or "ValidationError"}, wit)
+                    continue
+                try:
+                    text = json.dumps(s.value)
+                except Exception as e:
+                    env.violation({"kind": "serialized-not-json", "family": "std-constructed", "exc": type(e).__name__}, wit)
+                    continue
+                back = harness.call(deserialize, T, json.loads(text))
+                if back.kind != "ok" or un(back.value) != v or type(un(back.value)) is not type(v) or (cls is decimal.Decimal and repr(un(back.value)) != repr(v)):
+                    env.violation({"kind": "round-trip-differs", "family": "std-constructed", "cls": cls.__name__}, {**wit, "back": back.brief()})
+
+
 def run(env):
     harness.tag_errors(True)
+    if env.shard == 0:
+        check_std_constructed(env)
     from vf import disc
     disc.run_family(env, disc.check_c05, env.n(96, 4000))  # discriminated-union families first (their own budget)
     rng = env.rng
